@@ -48,6 +48,12 @@ func NewWorker(concurrency int) api.WorkTriggerer {
 	return func(ctx context.Context, _ *ui.Output, workers *workers.PoolManager, _ options.RunOptions) {
 		pool := workers.NewContinuousPool(concurrency)
 		pool.Start(ctx)
-		<-workers.WaitForCompletion()
+
+		// return once triggering has to stop, so that the run can apply its completion
+		// timeout to iterations still in flight instead of waiting for them for ever
+		select {
+		case <-workers.WaitForCompletion():
+		case <-ctx.Done():
+		}
 	}
 }
